@@ -65,8 +65,10 @@ package operationapplier
 //@ spec authRecover(req bytes) bool { validMH(boxed(recKey(reqSD(req))), reqReveal(req)) && sigValid(reqSD(req), recKey(reqSD(req))) }
 //@ spec authDeactivate(req bytes) bool { validMH(boxed(deaKey(reqSD(req))), reqReveal(req)) && sigValid(reqSD(req), deaKey(reqSD(req))) && deaSuffix(reqSD(req)) == reqSuffix(req) }
 //
+//@ spec creParsed(parser any, req bytes, batch bool) bool
 //@ iface OperationParser.ParseCreateOperation
 //@   results op, err
+//@   ensures (err == nil) == creParsed(this, request, anchor)
 //@   ensures err == nil ==> op != nil && fresh(op) && op.SuffixData == reqSuffixData(request) && op.SuffixData != nil && op.Delta == reqDelta(request) && op.Type == operation.TypeCreate
 // the parser's verdict depends on the mode it is asked in: the applier always asks in batch mode
 //@ spec updParsed(parser any, req bytes, batch bool) bool
@@ -137,6 +139,8 @@ package operationapplier
 //@   ensures err == nil && validMH(boxed(reqDelta(anchoredOp.OperationRequest)), reqSuffixData(anchoredOp.OperationRequest).DeltaHash) && reqDelta(anchoredOp.OperationRequest) != nil && deltaValid(s.OperationParser, reqDelta(anchoredOp.OperationRequest)) ==> composed == old(composed) + 1
 //@   ensures composed <= old(composed) + 1
 //@   modifies composed
+//   exactly these conditions make a create fail (parsed in batch mode: equal commitments are NOT a reason)
+//@   ensures (err == nil) == (rm.Doc == nil && creParsed(s.OperationParser, anchoredOp.OperationRequest, true))
 //@   ensures err != nil ==> r0 == nil
 //
 //@ func (*Applier).applyUpdateOperation
@@ -187,6 +191,10 @@ package operationapplier
 //@   modifies composed
 //@   ensures err != nil ==> r0 == nil
 //
+// the applier is built from the protocol parameters as given (no defaults substituted)
+//@ func New
+//@   ensures result != nil && fresh(result) && result.MaxOperationTimeDelta == p.MaxOperationTimeDelta && result.OperationParser == parser && result.DocumentComposer == dc
+//
 //@ func (*Applier).Apply
 //@   requires applierOK(s) && op != nil && rm != nil && op.TransactionTime < big()
 //@   ensures err == nil ==> r0 != nil && (op.Type == operation.TypeCreate || op.Type == operation.TypeUpdate || op.Type == operation.TypeRecover || op.Type == operation.TypeDeactivate)
@@ -195,5 +203,13 @@ package operationapplier
 //@   ensures err == nil && op.Type == operation.TypeDeactivate ==> authDeactivate(op.OperationRequest) && r0.Deactivated && r0.UpdateCommitment == "" && r0.RecoveryCommitment == ""
 //@   ensures err == nil && op.Type == operation.TypeCreate ==> rm.Doc == nil && !r0.Deactivated
 //@   ensures err == nil && op.Type != operation.TypeCreate ==> rm.Doc != nil
+//   the dispatcher hands back the per-type result unaltered: commitments installed by a recover / create / update
+//@   ensures err == nil && op.Type == operation.TypeRecover ==> r0.RecoveryCommitment == recCommit(reqSD(op.OperationRequest))
+//@   ensures err == nil && op.Type == operation.TypeRecover && validMH(boxed(reqDelta(op.OperationRequest)), recDeltaHash(reqSD(op.OperationRequest))) && reqDelta(op.OperationRequest) != nil && deltaValid(s.OperationParser, reqDelta(op.OperationRequest)) ==> r0.UpdateCommitment == reqDelta(op.OperationRequest).UpdateCommitment
+//@   ensures err == nil && op.Type == operation.TypeRecover && !(validMH(boxed(reqDelta(op.OperationRequest)), recDeltaHash(reqSD(op.OperationRequest))) && reqDelta(op.OperationRequest) != nil && deltaValid(s.OperationParser, reqDelta(op.OperationRequest))) ==> r0.UpdateCommitment == ""
+//@   ensures err == nil && op.Type == operation.TypeCreate ==> r0.RecoveryCommitment == reqSuffixData(op.OperationRequest).RecoveryCommitment
+//@   ensures err == nil && op.Type == operation.TypeCreate && validMH(boxed(reqDelta(op.OperationRequest)), reqSuffixData(op.OperationRequest).DeltaHash) && reqDelta(op.OperationRequest) != nil && deltaValid(s.OperationParser, reqDelta(op.OperationRequest)) ==> r0.UpdateCommitment == reqDelta(op.OperationRequest).UpdateCommitment
+//@   ensures err == nil && op.Type == operation.TypeUpdate ==> r0.UpdateCommitment == reqDelta(op.OperationRequest).UpdateCommitment
+//@   ensures op.Type == operation.TypeCreate ==> (err == nil) == (rm.Doc == nil && creParsed(s.OperationParser, op.OperationRequest, true))
 //@   modifies composed
 //@   ensures err != nil ==> r0 == nil
